@@ -14,9 +14,9 @@ type Gen struct {
 	keys     []string // key pool
 	readers  int
 	// shadow of what probably exists (generation guidance only — never an oracle)
-	bkts   map[string][]string // path key -> path
-	keysOf map[string][]string // path key -> keys put there
-	saved  *shadowSnap
+	bkts    map[string][]string // path key -> path
+	keysOf  map[string][]string // path key -> keys put there
+	saved   *shadowSnap
 	touched map[string]bool // bucket paths edited in the current write transaction
 }
 
